@@ -1322,6 +1322,7 @@ Lemma seq_get_translation_old_spec_lemma id aa st s ok inc trim :
   = stop_spec (ncbi_tbl id) (eff_trim_old inc trim) inc ok s.
 Proof.
   intros Hin Hs. rewrite stop_spec_unfold. unfold eff_trim_old, seq_get_translation_old.
+  change (old_codon_d (codon_dict aa) ok inc) with (old_codon aa ok inc).
   assert (Hfin : forall seq, canon_str seq ->
      ropt (mapM (old_codon aa ok inc) (chunks3 seq))
      = (let p := translate_spec (ncbi_tbl id) seq in if negb inc && has_stop p then None else Some p)).
